@@ -275,3 +275,56 @@ class _:
     ensures = {}
     raises = {"ValueError": {"when": "True", "frame": False, "ensures": {"C20.both-no-middleware-applied": "ghost('mw_n') == old(ghost('mw_n'))"}}}
     modifies = WRITE_MOD
+
+
+# ---- the file wrappers: parse_file / write_file ---------------------------------------------------------------------------
+# open() / read() / write() are opaque (A-IO: they return a file object / a str / an int or raise OSError and write nothing
+# modelled).  What is proved is that the wrappers forward their stack arguments unchanged: the ghost trace of middleware
+# applications is the one parse_string / write_string produce for those arguments.
+
+@contract(EP + "parse_file#stack")
+class _:
+    """parse_file(path, parse_stack=S): after reading the file, exactly S applied left to right, each to the previous
+    result (the clauses of parse_string#stack)"""
+    sorts = {"path": "str", "parse_stack": "list:ref:Middleware", "append_middleware": "none", "encoding": "str", "result": "ref:Library"}
+    requires = {"trace-nonneg": "ghost('mw_n') >= 0"}
+    ensures = dict(_stack_ensures("parse_stack", "ghost('split_out')", "parse"),
+                   **{"C20.parse-result": "implies(old(len(parse_stack)) > 0, ref_id(result) == ghost('mw_out', ghost('mw_n') - 1)) and implies(old(len(parse_stack)) == 0, ref_id(result) == ghost('split_out'))"})
+    raises = {"Exception": {"when": None, "frame": False}}
+    modifies = PARSE_MOD
+
+
+@contract(EP + "parse_file#append")
+class _:
+    """parse_file(path, append_middleware=A): the default stack, then A in order (the clauses of parse_string#append)"""
+    sorts = {"path": "str", "parse_stack": "none", "append_middleware": "list:ref:Middleware", "encoding": "str", "result": "ref:Library"}
+    requires = {"trace-nonneg": "ghost('mw_n') >= 0"}
+    ensures = {
+        "C20.append-count": "ghost('mw_n') == old(ghost('mw_n')) + 2 + old(len(append_middleware))",
+        "C20.append-then-given": "forall(t, 0 <= t < old(len(append_middleware)), ghost('mw_who', old(ghost('mw_n')) + 2 + t) == old(ref_id(append_middleware[t])))",
+    }
+    raises = {"Exception": {"when": None, "frame": False}}
+    modifies = PARSE_MOD
+
+
+@contract(EP + "write_file#stack-path")
+class _:
+    """write_file(path, lib, parse_stack=U): exactly U in order, then the writer with the given format (the clauses of
+    write_string#stack); the text goes to the file"""
+    sorts = {"file": "str", "library": "ref:Library", "parse_stack": "list:ref:Middleware", "append_middleware": "none", "bibtex_format": "optref:ref:BibtexFormat"}
+    requires = {"trace-nonneg": "ghost('mw_n') >= 0"}
+    ensures = _stack_ensures("parse_stack", "old(ref_id(library))", "write")
+    raises = {"Exception": {"when": None, "frame": False}}
+    modifies = WRITE_MOD
+
+
+@contract(EP + "write_file#prepend-path")
+class _:
+    """write_file(path, lib, append_middleware=P): what write_string(lib, prepend_middleware=P) applies -- P in order, then
+    the default write stack"""
+    sorts = {"file": "str", "library": "ref:Library", "parse_stack": "none", "append_middleware": "list:ref:Middleware", "bibtex_format": "optref:ref:BibtexFormat"}
+    requires = {"trace-nonneg": "ghost('mw_n') >= 0"}
+    ensures = {"C20.file-prepend-count": "ghost('mw_n') == old(ghost('mw_n')) + old(len(append_middleware)) + 1",
+               "C20.file-prepend-given-first": "forall(t, 0 <= t < old(len(append_middleware)), ghost('mw_who', old(ghost('mw_n')) + t) == old(ref_id(append_middleware[t])))"}
+    raises = {"Exception": {"when": None, "frame": False}}
+    modifies = WRITE_MOD
